@@ -86,7 +86,7 @@ Proof.
     destruct (need_cases buf 1 e_read_field) as [[Hlt ->]|[Hge ->]]; cbn [bind].
     + destruct (N.ltb_spec (len buf) 1) as [_|Hc]; [eexists; split; reflexivity|lia].
     + destruct (N.ltb_spec (len buf) 1) as [Hc|_]; [lia|].
-      unfold i8. destruct (Z.eqb_spec (to_signed 8 (nth 0 buf 0)) thrift_STOP) as [Es|Ens].
+      unfold i8. change thrift_STOP with 0%Z. destruct (Z.eqb_spec (to_signed 8 (nth 0 buf 0)) 0) as [Es|Ens].
       * cbn [bind]. eexists; reflexivity.
       * destruct (need_cases buf 3 e_read_field) as [[Hlt ->]|[Hge3 ->]]; cbn [bind].
         -- destruct (N.ltb_spec (len buf) 3) as [_|Hc]; [eexists; split; reflexivity|lia].
@@ -129,7 +129,8 @@ Lemma r_message_begin_classified buf : classified (ref_msg buf) (r_message_begin
 Proof.
   unfold ref_msg, r_message_begin, classified.
   destruct (N.ltb_spec (len buf) 4) as [Hs|Hs]; [eexists; split; reflexivity|].
-  destruct (negb (N.land (unbe (take 4 buf)) (Z.to_N thrift_msgVersionMask) =? Z.to_N thrift_msgVersion1));
+  change (Z.to_N thrift_msgVersionMask) with 4294901760. change (Z.to_N thrift_msgVersion1) with 2147549184.
+  destruct (negb (N.land (unbe (take 4 buf)) 4294901760 =? 2147549184));
     [eexists; split; reflexivity|].
   rewrite slice_from_ok' by lia. cbn [bind].
   unfold ref_str, r_string, r_binary_gen, r_i32.
